@@ -66,6 +66,11 @@ def gen_case(rng, kind, n=None):
             if ops and rng.random() < 0.2:
                 op = json.loads(json.dumps(rng.choice(ops)))        # exactly the same record again: it is appended again
             ops.append(op)
+    if kind == "rpms" and rng.random() < 0.6:
+        # the write happens in the middle of a build: the last add before it is a sub-package (repeated as it is if need be)
+        withsrc = [o for o in ops if o["args"].get("srpm_nevra")]
+        if withsrc and ops[-1] is not withsrc[-1]:
+            ops.append(json.loads(json.dumps(withsrc[-1])))
     comp = FC.gen_compose(rng)
     if comp["id"] == "<create>":
         comp["id"] = "X-1-%s%s.%d" % (comp["date"], domains.COMPOSE_TYPE_SUFFIX[comp["type"]], comp["respin"] % 100)
@@ -75,6 +80,9 @@ def gen_case(rng, kind, n=None):
     for _ in range(rng.choice([0, 1, 2, 4])):
         if kind == "rpms":
             op = F.gen_rpms_op(rng, pool)
+            if not more and rng.random() < 0.7:
+                # the next sub-package of the build that was added last before the write
+                op = (F.sibling_rpms_op(rng, pool, ops[-1]) if ops else None) or op
         elif kind == "modules":
             op = F.gen_modules_op(rng)
             if ops and rng.random() < 0.6:
@@ -282,6 +290,33 @@ def check_case(ctx, pm, H, tmpdir):
             probs7 = ["dumps() after the second load differs from the loaded file"]
     except Exception as e:
         probs7 = ["loading into a used object raised %s: %s" % (type(e).__name__, str(e)[:120])]
+    # M8: the object that BUILT the manifest reads its own file back (a tool that checkpoints and resumes) and the history
+    # continues on it
+    if more:
+        probs8 = []
+        try:
+            real.loads(t1)
+            probs8 = F.first_diff(expected, F.real_state(real, kind))
+            model3 = F.MODELS[kind]()
+            setattr(model3, {"rpms": "rpms", "modules": "modules", "extra": "extra_files"}[kind], json.loads(json.dumps(expected)))
+            if not probs8:
+                for op in more:
+                    model3.add(json.loads(json.dumps(op["args"])), op["meta"])
+                    F.apply_real(real, json.loads(json.dumps(op)))
+                probs8 = F.first_diff(model3.state(), F.real_state(real, kind))
+                if not probs8:
+                    re5 = F.new_real(pm, kind)
+                    re5.loads(real.dumps())
+                    probs8 = F.first_diff(model3.state(), F.real_state(re5, kind))
+        except Exception as e:
+            probs8 = ["raised %s: %s" % (type(e).__name__, str(e)[:120])]
+        ctx.monitor("M8-builder-reloads-its-own-file-and-continues", fired=bool(probs8))
+        if any(op["meta"].get("sibling_of_previous") for op in more):
+            ctx.count("rpms-next-sub-package-of-the-same-build-after-reload")
+        if probs8:
+            ctx.violation("M8-builder-reloads-its-own-file-and-continues", "the object that built the manifest, after reading its own file "
+                          "back, holds that mapping, and further adds and a write/read cycle give what the reference model gives", case,
+                          observed=probs8, expected="model mapping")
     ctx.monitor("M7-load-replaces-content", fired=bool(probs7))
     if probs7:
         ctx.violation("M7-load-replaces-content", "a manifest is read back as exactly the mapping in the file - also into an object that held "
